@@ -25,18 +25,21 @@ import (
 
 // Check is one property's decision procedure.
 type Check struct {
-	ID        string
-	Level     string // evidence level: exploration | model_checking | fault_enumeration
-	Rule      string // how cases are enumerated and what makes one non-trivial
-	Assume    []string
-	Workers   int                                    // 0 = 16
-	Run       func(c *Ctx)                           // executed in every worker
-	Replay    func(c *Ctx, r json.RawMessage) string // re-execute one recorded case; returns the violated clause or ""
-	Race      bool                                   // needs the -race build (informational for bin/check)
-	Finalize  func(c *Ctx, merged *Result)           // parent-side cross-shard checks (optional)
-	Collapse  bool                                   // violations of one clause collapse into the shortest signature (history searches)
-	TimeQuick time.Duration
-	TimeThor  time.Duration
+	ID         string
+	Level      string // evidence level: exploration | model_checking | fault_enumeration
+	Rule       string // how cases are enumerated and what makes one non-trivial
+	Assume     []string
+	Workers    int                                    // 0 = 16
+	Run        func(c *Ctx)                           // executed in every worker
+	Replay     func(c *Ctx, r json.RawMessage) string // re-execute one recorded case; returns the violated clause or ""
+	Race       bool                                   // needs the -race build (informational for bin/check)
+	Finalize   func(c *Ctx, merged *Result)           // parent-side cross-shard checks (optional)
+	Collapse   bool                                   // violations of one clause collapse into the shortest signature (history searches)
+	Journal    bool                                   // workers journal the case they are about to run; a worker that dies is attributed and resumed
+	MemLimit   int64                                  // address-space limit of a worker in bytes (0 = none)
+	JournalSig func(raw json.RawMessage) string       // signature suffix for a case attributed through the journal
+	TimeQuick  time.Duration
+	TimeThor   time.Duration
 }
 
 var checks = map[string]*Check{}
@@ -79,6 +82,29 @@ type Ctx struct {
 	Deadline time.Time
 	vmap     map[string]*Violation
 	capped   bool
+	journal  *os.File
+	Resume   int64 // cases with index < Resume were handled by an earlier incarnation of this worker
+	out      string
+}
+
+// Begin journals the case that is about to run (write-ahead), so that an unrecoverable runtime
+// abort (fatal error: out of memory, stack overflow) is attributed to its input.
+func (c *Ctx) Begin(idx int64, cs any) {
+	vrt.CurrentCase = fmt.Sprint(idx)
+	if c.journal == nil {
+		return
+	}
+	b, _ := json.Marshal(map[string]any{"idx": idx, "case": cs})
+	c.journal.Truncate(0)
+	c.journal.WriteAt(b, 0)
+}
+
+// Flush writes the partial result (called periodically by long enumerations with a journal).
+func (c *Ctx) Flush() {
+	if c.out != "" {
+		b, _ := json.Marshal(c.Res)
+		os.WriteFile(c.out+".partial", b, 0644)
+	}
 }
 
 func (c *Ctx) Thorough() bool { return c.Tier == "thorough" }
@@ -262,8 +288,32 @@ func runWorker(id, tier string, i, n int, out string) int {
 		fmt.Fprintf(os.Stderr, "unknown check %s (built with the wrong tags?)\n", id)
 		return 2
 	}
-	c := &Ctx{ID: id, Tier: tier, Seed: seed(), Worker: i, NWorkers: n, Res: newResult(), vmap: map[string]*Violation{}}
+	c := &Ctx{ID: id, Tier: tier, Seed: seed(), Worker: i, NWorkers: n, Res: newResult(), vmap: map[string]*Violation{}, out: out}
 	c.Deadline = time.Now().Add(budget(ck, tier))
+	if v := os.Getenv("VERIF_DEADLINE_UNIX"); v != "" {
+		if t, err := strconv.ParseInt(v, 10, 64); err == nil {
+			c.Deadline = time.Unix(t, 0)
+		}
+	}
+	if v := os.Getenv("VERIF_RESUME"); v != "" {
+		c.Resume, _ = strconv.ParseInt(v, 10, 64)
+		// continue from the partial result of the previous incarnation
+		if b, err := os.ReadFile(out + ".partial"); err == nil {
+			r := newResult()
+			if json.Unmarshal(b, r) == nil {
+				c.Res = r
+				for _, v := range r.Violations {
+					c.vmap[v.Sig] = v
+				}
+			}
+		}
+	}
+	if ck.Journal {
+		c.journal, _ = os.Create(out + ".journal")
+	}
+	if ck.MemLimit > 0 {
+		setMemLimit(ck.MemLimit)
+	}
 	write := func() {
 		b, _ := json.Marshal(c.Res)
 		os.WriteFile(out, b, 0644)
@@ -406,20 +456,69 @@ func runParent(id, tier string) int {
 	self, _ := os.Executable()
 	var wg sync.WaitGroup
 	codes := make([]int, n)
+	deadline := time.Now().Add(budget(ck, tier))
+	var extraMu sync.Mutex
+	var extra []*Violation
 	for i := 0; i < n; i++ {
 		wg.Add(1)
 		go func(i int) {
 			defer wg.Done()
-			cmd := exec.Command(self, "worker", id, tier, strconv.Itoa(i), strconv.Itoa(n), fmt.Sprintf("%s/w%d.json", tmp, i))
-			cmd.Env = append(os.Environ(), "GOMAXPROCS="+env("VERIF_WORKER_PROCS", "1"), "GORACE=halt_on_error=0 log_path="+tmp+"/race"+strconv.Itoa(i))
-			cmd.Stdout = os.Stderr
-			cmd.Stderr = os.Stderr
-			if err := cmd.Run(); err != nil {
-				if ee, ok := err.(*exec.ExitError); ok {
-					codes[i] = ee.ExitCode()
-				} else {
-					codes[i] = 99
+			out := fmt.Sprintf("%s/w%d.json", tmp, i)
+			resume := int64(0)
+			for attempt := 0; attempt < 40; attempt++ {
+				cmd := exec.Command(self, "worker", id, tier, strconv.Itoa(i), strconv.Itoa(n), out)
+				cmd.Env = append(os.Environ(), "GOMAXPROCS="+env("VERIF_WORKER_PROCS", "1"), "GORACE=halt_on_error=0 log_path="+tmp+"/race"+strconv.Itoa(i),
+					"VERIF_DEADLINE_UNIX="+strconv.FormatInt(deadline.Unix(), 10))
+				if resume > 0 {
+					cmd.Env = append(cmd.Env, "VERIF_RESUME="+strconv.FormatInt(resume, 10))
 				}
+				var errBuf strings.Builder
+				cmd.Stdout = os.Stderr
+				cmd.Stderr = &errBuf
+				err := cmd.Run()
+				codes[i] = 0
+				if err != nil {
+					if ee, ok := err.(*exec.ExitError); ok {
+						codes[i] = ee.ExitCode()
+					} else {
+						codes[i] = 99
+					}
+				}
+				es := errBuf.String()
+				if codes[i] == 0 || !ck.Journal || codes[i] == 4 {
+					os.Stderr.WriteString(es)
+					return
+				}
+				// the worker died (runtime abort, kill, stall): attribute to the journaled case and resume after it
+				jb, jerr := os.ReadFile(out + ".journal")
+				var j struct {
+					Idx  int64           `json:"idx"`
+					Case json.RawMessage `json:"case"`
+				}
+				if jerr != nil || json.Unmarshal(jb, &j) != nil || j.Idx < resume {
+					os.Stderr.WriteString(es)
+					return
+				}
+				what := "worker process died"
+				for _, l := range strings.Split(es, "\n") {
+					if strings.HasPrefix(l, "fatal error:") || strings.HasPrefix(l, "runtime:") || strings.Contains(l, "STALL") {
+						what = strings.TrimSpace(l)
+						break
+					}
+				}
+				clause := "fatal-runtime-abort"
+				if codes[i] == 3 {
+					clause = "stall"
+				}
+				v := &Violation{Sig: clause + "|journal", Clause: clause, Detail: fmt.Sprintf("worker %d died (exit %d: %s) while handling the journaled case", i, codes[i], what), Case: j.Case, Count: 1}
+				if ck.JournalSig != nil {
+					v.Sig = clause + "|" + ck.JournalSig(j.Case)
+				}
+				extraMu.Lock()
+				extra = append(extra, v)
+				extraMu.Unlock()
+				resume = j.Idx + 1
+				codes[i] = 0
 			}
 		}(i)
 	}
@@ -463,6 +562,9 @@ func runParent(id, tier string) int {
 		for _, v := range best {
 			total.Violations = append(total.Violations, v)
 		}
+	}
+	for _, v := range extra {
+		merge(total, &Result{Violations: []*Violation{v}, Exhaustive: true})
 	}
 	c := &Ctx{ID: id, Tier: tier, Seed: seed(), NWorkers: n, Res: total, vmap: map[string]*Violation{}}
 	for _, v := range total.Violations {
